@@ -209,7 +209,7 @@ def run_harnesses(ws, unit, hs, jobs=8, extra=(), timeout=None):
     return res, out, ' '.join(cmd), time.time() - t0, rc
 
 
-def run_kani_unit(unit, repo, tier='quick', jobs=8, keep_ws=False, only=None, prop=None):
+def run_kani_unit(unit, repo, tier='quick', jobs=8, keep_ws=False, only=None, prop=None, known=None):
     t0 = time.time()
     out = {'unit': unit.name, 'engine': 'kani', 'props': unit.props, 'status': 'ok', 'failures': [], 'undecided': [], 'harnesses': [], 'runs': []}
     ws = tempfile.mkdtemp(prefix='grafeo-verif-kani-', dir=SCRATCH_ROOT)
@@ -255,11 +255,13 @@ def run_kani_unit(unit, repo, tier='quick', jobs=8, keep_ws=False, only=None, pr
         # counterexamples for the failures (one extra Kani run per failing harness, in parallel)
         if out['failures']:
             from concurrent.futures import ThreadPoolExecutor
+            # counterexamples are extracted (and replayed natively) only for failures that are not listed known findings
+            todo = [f for f in out['failures'] if not (known and known(f))]
             with ThreadPoolExecutor(max_workers=min(jobs, 4)) as ex:
-                ws_ = list(ex.map(lambda f: witness(ws, unit, next(h for h in hs if h['name'] == f['harness'])), out['failures']))
-            for f, w in zip(out['failures'], ws_):
+                ws_ = list(ex.map(lambda f: witness(ws, unit, next(h for h in hs if h['name'] == f['harness'])), todo))
+            for f, w in zip(todo, ws_):
                 f['witness'] = w
-            native_replay(ws, unit, out['failures'])
+            native_replay(ws, unit, todo)
         if out['failures']:
             out['status'] = 'violation'
         elif out['undecided']:
@@ -276,8 +278,10 @@ def run_kani_unit(unit, repo, tier='quick', jobs=8, keep_ws=False, only=None, pr
 def witness(ws, unit, h):
     """Ask Kani for the counterexample as concrete values (concrete playback test text)."""
     res, full, cmd, wall, rc = run_harnesses(ws, unit, [h], jobs=1, extra=['-Z', 'concrete-playback', '--concrete-playback=print'])
-    m = re.search(r'(?s)```\n(.*?#\[test\].*?)```', full)
-    test = m.group(1) if m else None
+    tests = re.findall(r'(?s)```\n(.*?#\[test\].*?)```', full)
+    # Kani prints one playback test per failed / covered property: prefer a failed assertion over a cover
+    tests.sort(key=lambda t: 0 if 'Check for `assertion`' in t else (2 if 'Check for `cover`' in t else 1))
+    test = tests[0] if tests else None
     w = {'playback_test': test, 'cmd': cmd}
     if test:
         vals = re.findall(r'//\s*(.+)\n\s*vec!\[([^\]]*)\]', test)
